@@ -8,4 +8,4 @@ for p in "$@"; do
   echo "$id $p exit=$rc $(echo "$out" | grep '^violation:' | head -1 | cut -c1-260)"
   [ $rc = 2 ] && echo "$out" | tail -5
 done
-git -C /repo checkout -- . 
+git -C /repo checkout -- . && /verif/bin/build.sh
